@@ -169,6 +169,23 @@ fn containers(out: &mut Out, rng: &mut Rng, thorough: bool) {
                 differ(out, "sign", "locked", &reference, &r, rp.clone());
             }
         }
+        // ---- freshly made containers hold the same bytes (zeros) whatever their type
+        #[cfg(feature = "nightly")]
+        if round == 0 {
+            use dryoc::protected::*;
+            out.search_evaluations += 8;
+            let fresh: Vec<(&str, Vec<u8>)> = vec![
+                ("StackByteArray<32>", StackByteArray::<32>::new_byte_array().to_vec()),
+                ("[u8; 32]", <[u8; 32] as NewByteArray<32>>::new_byte_array().to_vec()),
+                ("HeapByteArray<32>", HeapByteArray::<32>::new_byte_array().as_slice().to_vec()),
+                ("Locked<HeapByteArray<32>>", <Locked<HeapByteArray<32>> as NewByteArray<32>>::new_byte_array().as_slice().to_vec()),
+                ("Locked<HeapByteArray<64>> (new_bytes)", <Locked<HeapByteArray<64>> as NewBytes>::new_bytes().as_slice().to_vec()),
+                ("HeapByteArray<32>::new_locked", HeapByteArray::<32>::new_locked().map(|x| x.as_slice().to_vec()).unwrap_or_default()),
+                ("KeyPair<Locked, Locked>::new().secret_key", dryoc::keypair::KeyPair::<Locked<HeapByteArray<32>>, Locked<HeapByteArray<32>>>::new().secret_key.as_slice().to_vec()),
+                ("KeyPair<Locked, Locked>::default().public_key", dryoc::keypair::KeyPair::<Locked<HeapByteArray<32>>, Locked<HeapByteArray<32>>>::default().public_key.as_slice().to_vec()),
+            ];
+            for (name, v) in fresh { if v.is_empty() || v.iter().any(|x| *x != 0) { out.hit("containers.differ.fresh-contents", format!("a new {} holds {} where the stack array holds zeros", name, hx(&v)), json!({"op":"containers.fresh","container":name})); } }
+        }
         // ---- the same resize script on Vec, HeapBytes and LockedBytes: same length, same bytes, same digest
         #[cfg(feature = "nightly")]
         {
